@@ -79,7 +79,9 @@ def run(prop, case, exception_is_violation=False):
             pass
     scribbled = MC.scribble_on_fresh_parse(case) if len(MC.describe_case(case)) % 3 == 0 else 0
     contracts.CONTEXT['explicit_h_possible'] = '[H' in MC.describe_case(case)
-    gaps = prop == 'C02' and case.get('ctor') == 'from_fragment_dicts' and case['kind'] in ('cut', 'virtual', 'coarse_cut') and len(MC.describe_case(case)) % 2 == 0
+    gaps = prop in ('C02', 'C03') and case.get('ctor') == 'from_fragment_dicts' and case['kind'] in ('cut', 'virtual', 'coarse_cut') and len(MC.describe_case(case)) % 2 == 0
+    if gaps:
+        gaps = 'shuffled' if len(MC.describe_case(case)) % 4 == 0 else 'gaps'
     contracts.CONTEXT['fragment_keys_with_gaps'] = gaps
     try:
         res = MC.execute(case)
